@@ -95,6 +95,10 @@ PARTS = {
 }
 
 
+def _rend(t, is_async: bool, **data):  # type: ignore[no-untyped-def]
+    return drive(t.render_async(**data)) if is_async else t.render(**data)
+
+
 class _Limited(Environment):
     output_stream_limit = 10**9
     loop_iteration_limit = None
@@ -125,18 +129,18 @@ ENV_L.output_stream_limit = 10**9
 @cond(
     pre=["0 <= n <= 3", "0 <= m <= 3", "0 <= L <= 40"],
     timeout=240,
-    shard={"i": list(range(len(OUT_SRC)))},
-    covers="output_stream_limit = L (solver variable): success => output identical to the unlimited render and len(output.encode()) <= L; unlimited output <= L bytes => success (a limit that is not exceeded changes nothing); failure => OutputStreamLimitError - through loops, nested loops, capture buffers (carry of the parent size), render/include partials, blank blocks written to a null buffer, macros, block.super, multi-byte text",
+    shard={"i": list(range(len(OUT_SRC))), "is_async": [False, True]},
+    covers="output_stream_limit = L (solver variable): success => output identical to the unlimited render and len(output.encode()) <= L; unlimited output <= L bytes => success (a limit that is not exceeded changes nothing); failure => OutputStreamLimitError - through loops, nested loops, capture buffers (carry of the parent size), render/include partials, blank blocks written to a null buffer, macros, block.super, multi-byte text; render() and render_async()",
     bounds="8 programs; loop sizes n, m in 0..3; limit L in 0..40 (every boundary limit-1/limit/limit+1 of every reachable size is inside)",
     stubs=(STUB_LIMITED_IO,),
-    grid=lambda: [(i, n, m, L) for i in range(len(OUT_SRC)) for n in (0, 1, 3) for m in (0, 2) for L in (0, 1, 5, 6, 7, 12, 40)],
+    grid=lambda: [(i, n, m, L, a) for i in range(len(OUT_SRC)) for n in (0, 1, 3) for m in (0, 2) for L in (0, 1, 5, 6, 7, 12, 40) for a in (False, True)],
 )
-def d_output_limit(i: int, n: int, m: int, L: int) -> bool:
+def d_output_limit(i: int, n: int, m: int, L: int, is_async: bool) -> bool:
     ref = OUT_U[i].render(n=n, m=m)
     size = len(ref.encode("utf-8"))
     ENV_L.output_stream_limit = L
     try:
-        out = OUT_L[i].render(n=n, m=m)
+        out = _rend(OUT_L[i], is_async, n=n, m=m)
     except OutputStreamLimitError:
         return size > L or i in (2, 5, 7)  # capture-heavy programs may also fail on what they capture but never print in full
     except LiquidError:
@@ -149,13 +153,13 @@ def d_output_limit(i: int, n: int, m: int, L: int) -> bool:
 @cond(
     pre=["0 <= n <= 3", "0 <= m <= 3", "0 <= L <= 40"],
     timeout=240,
-    shard={"i": [2, 5, 7]},
+    shard={"i": [2, 5, 7], "is_async": [False, True]},
     covers="capture programs: the render fails iff at some moment parent-buffer bytes + capture-buffer bytes exceed L (the carry of get_output_buffer), computed by a hand-written consumption formula per program",
     bounds="3 capture programs; n, m in 0..3; L in 0..40",
     stubs=(STUB_LIMITED_IO,),
-    grid=lambda: [(i, n, m, L) for i in (2, 5, 7) for n in (0, 1, 3) for m in (0, 2) for L in (0, 1, 2, 5, 6, 7, 8, 12, 40)],
+    grid=lambda: [(i, n, m, L, a) for i in (2, 5, 7) for n in (0, 1, 3) for m in (0, 2) for L in (0, 1, 2, 5, 6, 7, 8, 12, 40) for a in (False, True)],
 )
-def d_capture_limit(i: int, n: int, m: int, L: int) -> bool:
+def d_capture_limit(i: int, n: int, m: int, L: int, is_async: bool) -> bool:
     n = concrete_int(n, 0, 3)
     m = concrete_int(m, 0, 3)
     if i == 2:
@@ -167,7 +171,7 @@ def d_capture_limit(i: int, n: int, m: int, L: int) -> bool:
         peak = max([2 * k for k in range(1, n + 1)] + [2 * n + 1 + 2 * n])
     ENV_L.output_stream_limit = L
     try:
-        OUT_L[i].render(n=n, m=m)
+        _rend(OUT_L[i], is_async, n=n, m=m)
         ok = True
     except OutputStreamLimitError:
         ok = False
@@ -188,10 +192,14 @@ LOOP_PARTS = {
     "fwd2": "{% macro f %}{% render 'fwd' %}{% endmacro %}{% call f %}",
     "base": "{% block b %}{% endblock %}",
     "child": "{% extends 'base' %}{% block b %}{% render 'p' %}{% endblock %}",
+    "one": "{% for k in (1..2) %}.{% endfor %}",
 }
 
 
-class _LoopLimited(Environment):
+from liquid2.shopify import Environment as _ShopifyEnvironment  # noqa: E402
+
+
+class _LoopLimited(_ShopifyEnvironment):
     loop_iteration_limit = 10**9
 
 
@@ -209,11 +217,17 @@ LOOP_SRC = [
     ("{% for i in (1..n) %}{% capture c %}{% for j in (1..m) %}{% for k in (1..2) %}.{% endfor %}{% endfor %}{% endcapture %}{% endfor %}", lambda n, m: max(n, n * m if n else 0, n * m * 2 if (n and m) else 0)),
     ("{% for i in (1..n) %}{% if i == 1 %}{% for j in (1..m) %} {% endfor %}{% endif %}{% endfor %}{% tablerow r in (1..m) %}{% for i in (1..n) %}.{% endfor %}{% endtablerow %}".replace("{% tablerow r in (1..m) %}", "{% for r in (1..m) %}").replace("{% endtablerow %}", "{% endfor %}"),
      lambda n, m: max(n, n * m if n else 0, m, m * n if m else 0)),
+    # loops that are not `for` tags: render ... for, include ... for, tablerow (aa has n items, bb has m items)
+    ("{% render 'p' for aa %}", lambda n, m: max(n, n * m)),
+    ("{% include 'p' for aa %}", lambda n, m: max(n, n * m)),
+    ("{% for i in (1..n) %}{% render 'one' for bb %}{% endfor %}", lambda n, m: max(n, n * m, 2 * n * m)),
+    ("{% tablerow r in (1..n) cols: 2 %}{% for j in (1..m) %}.{% endfor %}{% endtablerow %}", lambda n, m: max(n, n * m)),
+    ("{% for i in (1..n) %}{% tablerow r in bb %}{% include 'one' %}{% endtablerow %}{% endfor %}", lambda n, m: max(n, n * m, 2 * n * m)),
 ]
 LOOP_T = [ENV_LOOP.from_string(s) for s, _ in LOOP_SRC]
 for _t in LOOP_T:
     try:
-        _t.render(n=1, m=1)
+        _t.render(n=1, m=1, aa=[0], bb=[0])
     except Exception:  # noqa: BLE001
         pass
 
@@ -221,18 +235,18 @@ for _t in LOOP_T:
 @cond(
     pre=["0 <= n <= 3", "0 <= m <= 3", "1 <= L <= 20"],
     timeout=240,
-    shard={"i": list(range(len(LOOP_SRC)))},
-    covers="loop_iteration_limit = L (solver variable): the render fails with LoopIterationLimitError iff the largest product of nested loop lengths - across render, include, macro call, capture and blank blocks - exceeds L; otherwise it succeeds",
-    bounds="11 loop nests (depth <= 3 across partial/macro/block boundaries, incl. loop-free forwarding partials and macros between two loops); n, m in 0..3; L in 1..20",
-    grid=lambda: [(i, n, m, L) for i in range(len(LOOP_SRC)) for n in (0, 1, 3) for m in (0, 2, 3) for L in (1, 2, 3, 5, 6, 8, 9, 17, 18, 20)],
+    shard={"i": list(range(len(LOOP_SRC))), "is_async": [False, True]},
+    covers="loop_iteration_limit = L (solver variable): the render fails with LoopIterationLimitError iff the largest product of nested loop lengths - across for, tablerow, render ... for, include ... for, render, include, macro call, capture and blank blocks - exceeds L; otherwise it succeeds; render() and render_async()",
+    bounds="16 loop nests (depth <= 3 across partial/macro/block boundaries, incl. loop-free forwarding partials and macros between two loops, and the three looping constructs that are not `for` tags); n, m in 0..3; L in 1..20",
+    grid=lambda: [(i, n, m, L, a) for i in range(len(LOOP_SRC)) for n in (0, 1, 3) for m in (0, 2, 3) for L in (1, 2, 3, 5, 6, 8, 9, 17, 18, 20) for a in (False, True)],
 )
-def d_loop_limit(i: int, n: int, m: int, L: int) -> bool:
+def d_loop_limit(i: int, n: int, m: int, L: int, is_async: bool) -> bool:
     n = concrete_int(n, 0, 3)
     m = concrete_int(m, 0, 3)
     need = LOOP_SRC[i][1](n, m)
     ENV_LOOP.loop_iteration_limit = L
     try:
-        LOOP_T[i].render(n=n, m=m)
+        _rend(LOOP_T[i], is_async, n=n, m=m, aa=list(range(n)), bb=list(range(m)))
         ok = True
     except LoopIterationLimitError:
         ok = False
@@ -316,14 +330,17 @@ for _t in NS_T:
         pass
 
 
-def _ns_run(i: int, s: str, n: int, limit):  # type: ignore[no-untyped-def]
+def _ns_run(i: int, s: str, n: int, limit, is_async: bool = False):  # type: ignore[no-untyped-def]
     ENV_NS.local_namespace_limit = limit
     _RecLocals.PEAK[0] = 0
     t = NS_T[i]
     buf = _StringIO()
     try:
         ctx = SizeCtx(t, global_data=t.make_globals({"s": s, "n": n}))
-        t.render_with_context(ctx, buf)
+        if is_async:
+            drive(t.render_with_context_async(ctx, buf))
+        else:
+            t.render_with_context(ctx, buf)
         res = ("ok", buf.getvalue())
     except LocalNamespaceLimitError:
         res = ("limit",)
@@ -337,16 +354,16 @@ def _ns_run(i: int, s: str, n: int, limit):  # type: ignore[no-untyped-def]
 @cond(
     pre=["len(s) <= 2", "in_alpha(s, 'a')", "0 <= n <= 2", "1 <= L <= 14"],
     timeout=240,
-    shard={"i": list(range(len(NS_SRC)))},
+    shard={"i": list(range(len(NS_SRC))), "is_async": [False, True]},
     covers="local_namespace_limit = L (solver variable), measured through the documented get_size_of_locals override: a render that succeeds never had a local namespace scoring more than L at any assignment - first binding, re-binding of an existing name with a larger value, capture, assignments in loops, inside rendered partials (carry) and macros - and a render whose namespace never exceeds L does not fail and renders what the unlimited environment renders",
     bounds="8 programs; s over {a} len <= 2 (value sizes are solver variables); n in 0..2; L in 1..14; score = characters of strings + 1 per other value + carry",
     stubs=("RenderContext subclass: get_size_of_locals overridden (documented extension point) with len() as the measure; locals dict records its peak score",),
-    grid=lambda: [(i, s, n, L) for i in range(len(NS_SRC)) for s in ("", "a", "aa") for n in (0, 1, 2) for L in (1, 2, 3, 4, 5, 6, 8, 9, 12)],
+    grid=lambda: [(i, s, n, L, a) for i in range(len(NS_SRC)) for s in ("", "a", "aa") for n in (0, 1, 2) for L in (1, 2, 3, 4, 5, 6, 8, 9, 12) for a in (False, True)],
 )
-def d_namespace_limit(i: int, s: str, n: int, L: int) -> bool:
+def d_namespace_limit(i: int, s: str, n: int, L: int, is_async: bool) -> bool:
     n = concrete_int(n, 0, 2)
     free, _ = _ns_run(i, s, n, None)
-    res, peak = _ns_run(i, s, n, L)
+    res, peak = _ns_run(i, s, n, L, is_async)
     if res[0] == "other" or free[0] != "ok":
         return False
     if res[0] == "ok":
